@@ -7,6 +7,7 @@ import (
 	"go/ast"
 	"go/token"
 	"go/types"
+	"regexp"
 	"sort"
 	"strings"
 
@@ -157,8 +158,8 @@ func ruleCodecSym(c *RC) *RuleResult {
 	r.Sites++
 	md := c.Prog.ByName["internal/consensus:message.DecodeBinary"]
 	derived := false
-	if md != nil {
-		ast.Inspect(md.Decl.Body, func(n ast.Node) bool {
+	for _, mem := range c.clusterFns(md) {
+		ast.Inspect(mem.Decl.Body, func(n ast.Node) bool {
 			if as, ok := n.(*ast.AssignStmt); ok && len(as.Lhs) == 1 {
 				if sel, ok := as.Lhs[0].(*ast.SelectorExpr); ok && sel.Sel.Name == "newViewNumber" {
 					if be, ok := as.Rhs[0].(*ast.BinaryExpr); ok && be.Op == token.ADD {
@@ -306,15 +307,16 @@ func ruleDecodeErr(c *RC) *RuleResult {
 	r.Sites++
 	md := c.Prog.ByName["internal/consensus:message.DecodeBinary"]
 	okDefault := false
-	if md != nil {
-		ast.Inspect(md.Decl.Body, func(n ast.Node) bool {
+	for _, mem := range c.clusterFns(md) {
+		ast.Inspect(mem.Decl.Body, func(n ast.Node) bool {
 			if sw, ok := n.(*ast.SwitchStmt); ok {
 				for _, cl := range sw.Body.List {
 					cc := cl.(*ast.CaseClause)
 					if cc.List == nil {
 						for _, st := range cc.Body {
-							if rs, ok := st.(*ast.ReturnStmt); ok && len(rs.Results) == 1 {
-								if id, ok := rs.Results[0].(*ast.Ident); !ok || id.Name != "nil" {
+							if rs, ok := st.(*ast.ReturnStmt); ok && len(rs.Results) >= 1 {
+								// the error is the last result (a helper's error result is checked by the rule above)
+								if id, ok := rs.Results[len(rs.Results)-1].(*ast.Ident); !ok || id.Name != "nil" {
 									okDefault = true
 								}
 							}
@@ -331,6 +333,42 @@ func ruleDecodeErr(c *RC) *RuleResult {
 		r.fail("message.DecodeBinary/default", "", "unknown message kinds are not rejected")
 	}
 	return r
+}
+
+// invokesOnParam: parameter positions of g on which g invokes the method (interface call or static call).
+func (c *RC) invokesOnParam(g *FuncInfo, method string) map[int]bool {
+	out := map[int]bool{}
+	for _, s := range c.A.FnSites[g] {
+		if s.Kind != "call" || !strings.HasSuffix(s.Callee, "."+method) {
+			continue
+		}
+		for _, sn := range s.Snaps {
+			if sn.Recv == nil {
+				continue
+			}
+			for j, p := range g.Params {
+				if sn.Recv.K == KParam && sn.Recv.Name == p.Name() {
+					out[j] = true
+				}
+			}
+		}
+	}
+	return out
+}
+
+// clusterFns: fn and its single-caller private helpers, in a stable order (nil-safe).
+func (c *RC) clusterFns(fn *FuncInfo) []*FuncInfo {
+	if fn == nil {
+		return nil
+	}
+	cl := c.A.cluster(fn)
+	out := []*FuncInfo{fn}
+	for _, f := range c.Prog.sortedFuncs() {
+		if cl[f] && f != fn {
+			out = append(out, f)
+		}
+	}
+	return out
 }
 
 func returnsError(info *types.Info, call *ast.CallExpr) bool {
@@ -392,7 +430,7 @@ func ruleTypeSwitch(c *RC) *RuleResult {
 	}
 	// body type per kind from message.DecodeBinary
 	bodyOf := map[string]string{"PreCommitType": "preCommit"}
-	if md := c.Prog.ByName["internal/consensus:message.DecodeBinary"]; md != nil {
+	for _, md := range c.clusterFns(c.Prog.ByName["internal/consensus:message.DecodeBinary"]) {
 		ast.Inspect(md.Decl.Body, func(n ast.Node) bool {
 			sw, ok := n.(*ast.SwitchStmt)
 			if !ok {
@@ -418,6 +456,11 @@ func ruleTypeSwitch(c *RC) *RuleResult {
 		})
 	}
 	// reconstructions
+	makers := c.payloadMakers()
+	if len(makers) == 0 {
+		r.unresolved("function building a *Payload from a kind and a body (role of fromPayload)")
+	}
+	stampViaMaker := false
 	getters := map[string]string{"GetPrepareRequest": "PrepareRequestType", "GetPrepareResponses": "PrepareResponseType", "GetChangeViews": "ChangeViewType", "GetPreCommits": "PreCommitType", "GetCommits": "CommitType"}
 	for g, kind := range getters {
 		fn := c.Prog.ByName["internal/consensus:recoveryMessage."+g]
@@ -432,9 +475,21 @@ func ruleTypeSwitch(c *RC) *RuleResult {
 		ast.Inspect(fn.Decl.Body, func(n ast.Node) bool {
 			switch x := n.(type) {
 			case *ast.CallExpr:
-				if id, ok := x.Fun.(*ast.Ident); ok && id.Name == "fromPayload" && len(x.Args) == 3 {
-					usedKind = constName(gi, x.Args[0])
-					if u, ok := x.Args[2].(*ast.UnaryExpr); ok {
+				var pm payloadMaker
+				isMaker := false
+				if fo, ok := typeutil.Callee(gi, x).(*types.Func); ok {
+					if t := c.Prog.Funcs[fo.Origin()]; t != nil {
+						pm, isMaker = makers[t]
+					}
+				}
+				if isMaker && pm.kind < len(x.Args) && pm.body < len(x.Args) {
+					usedKind = constName(gi, x.Args[pm.kind])
+					if pm.vidx >= 0 && pm.vidx < len(x.Args) && g == "GetPrepareRequest" && len(fn.Params) == 3 {
+						if id, ok := ast.Unparen(x.Args[pm.vidx]).(*ast.Ident); ok && gi.Uses[id] == fn.Params[2] {
+							stampViaMaker = true
+						}
+					}
+					if u, ok := x.Args[pm.body].(*ast.UnaryExpr); ok {
 						if cl, ok := u.X.(*ast.CompositeLit); ok {
 							lit = cl
 							if t, ok := cl.Type.(*ast.Ident); ok {
@@ -487,7 +542,7 @@ func ruleTypeSwitch(c *RC) *RuleResult {
 	// the rebuilt proposal is stamped with the primary index
 	r.Sites++
 	if fn := c.Prog.ByName["internal/consensus:recoveryMessage.GetPrepareRequest"]; fn != nil && len(fn.Params) == 3 {
-		okStamp := false
+		okStamp := stampViaMaker
 		for _, s := range c.A.FnSites[fn] {
 			if s.Kind == "call" && strings.HasSuffix(s.Callee, "SetValidatorIndex") {
 				for _, sn := range s.Snaps {
@@ -506,6 +561,93 @@ func ruleTypeSwitch(c *RC) *RuleResult {
 	return r
 }
 
+// payloadMaker describes a function of internal/consensus that builds a *Payload of a kind given as a parameter around
+// a body given as a parameter (the role of fromPayload), directly or by forwarding both to another maker.
+type payloadMaker struct {
+	kind, body, vidx int // parameter positions; vidx: parameter handed to SetValidatorIndex (or -1)
+}
+
+func (c *RC) payloadMakers() map[*FuncInfo]payloadMaker {
+	out := map[*FuncInfo]payloadMaker{}
+	var cands []*FuncInfo
+	for _, fn := range c.Prog.sortedFuncs() {
+		if fn.Pkg.PkgPath != modPath+"/internal/consensus" || fn.RecvVar != nil {
+			continue
+		}
+		sig := fn.Obj.Type().(*types.Signature)
+		if sig.Results().Len() != 1 || namedName(sig.Results().At(0).Type()) != "Payload" {
+			continue
+		}
+		cands = append(cands, fn)
+	}
+	paramIdx := func(fn *FuncInfo, e ast.Expr) int {
+		id, ok := ast.Unparen(e).(*ast.Ident)
+		if !ok {
+			return -1
+		}
+		for i, p := range fn.Params {
+			if fn.Pkg.TypesInfo.Uses[id] == p {
+				return i
+			}
+		}
+		return -1
+	}
+	for round := 0; round < 3; round++ {
+		for _, fn := range cands {
+			if _, done := out[fn]; done {
+				continue
+			}
+			pm := payloadMaker{-1, -1, -1}
+			info := fn.Pkg.TypesInfo
+			ast.Inspect(fn.Decl.Body, func(n ast.Node) bool {
+				switch x := n.(type) {
+				case *ast.KeyValueExpr:
+					k, _ := x.Key.(*ast.Ident)
+					if k == nil {
+						return true
+					}
+					if i := paramIdx(fn, x.Value); i >= 0 {
+						switch namedName(fn.Params[i].Type()) {
+						case "MessageType":
+							pm.kind = i
+						case "Serializable":
+							pm.body = i
+						}
+					}
+				case *ast.CallExpr:
+					if fo, ok := typeutil.Callee(info, x).(*types.Func); ok {
+						if t := c.Prog.Funcs[fo.Origin()]; t != nil {
+							if sub, ok := out[t]; ok && sub.kind < len(x.Args) && sub.body < len(x.Args) {
+								if i := paramIdx(fn, x.Args[sub.kind]); i >= 0 {
+									pm.kind = i
+								}
+								if i := paramIdx(fn, x.Args[sub.body]); i >= 0 {
+									pm.body = i
+								}
+								if sub.vidx >= 0 && sub.vidx < len(x.Args) {
+									if i := paramIdx(fn, x.Args[sub.vidx]); i >= 0 {
+										pm.vidx = i
+									}
+								}
+							}
+						}
+						if fo.Name() == "SetValidatorIndex" && len(x.Args) == 1 {
+							if i := paramIdx(fn, x.Args[0]); i >= 0 {
+								pm.vidx = i
+							}
+						}
+					}
+				}
+				return true
+			})
+			if pm.kind >= 0 && pm.body >= 0 {
+				out[fn] = pm
+			}
+		}
+	}
+	return out
+}
+
 // A-HASH-INPUT
 func ruleHashInput(c *RC) *RuleResult {
 	r := &RuleResult{Rule: "A-HASH-INPUT", Kind: "PROV", Doc: "Payload.Hash ≡ Hash256(MarshalUnsigned()) (or the cache); MarshalUnsigned encodes the whole payload; block Hash/Sign/Verify feed GetHashData, which encodes the embedded base and never reads the signature"}
@@ -517,12 +659,32 @@ func ruleHashInput(c *RC) *RuleResult {
 		}
 		return false
 	}
+	// encodes: fn runs EncodeBinary of its receiver, directly or through a helper that invokes the method on the
+	// parameter the receiver is passed as
+	encodes := func(fn *FuncInfo, callee string) bool {
+		if calls(fn, callee) {
+			return true
+		}
+		for _, s := range c.A.FnSites[fn] {
+			if s.Kind != "call" || s.Target == nil || s.Target.Pkg.PkgPath != consPath {
+				continue
+			}
+			for j := range c.invokesOnParam(s.Target, "EncodeBinary") {
+				for _, sn := range s.Snaps {
+					if j < len(sn.Args) && sn.Args[j] != nil && (sn.Args[j] == rootRecv || sn.Args[j].S == rootRecv.S) {
+						return true
+					}
+				}
+			}
+		}
+		return false
+	}
 	ph := c.Prog.ByName["internal/consensus:Payload.Hash"]
 	mu := c.Prog.ByName["internal/consensus:Payload.MarshalUnsigned"]
 	r.Sites++
 	if ph == nil || mu == nil {
 		r.unresolved("Payload.Hash / Payload.MarshalUnsigned")
-	} else if calls(ph, "Payload.MarshalUnsigned") && calls(ph, "crypto:Hash256") && calls(mu, "Payload.EncodeBinary") {
+	} else if calls(ph, "Payload.MarshalUnsigned") && calls(ph, "crypto:Hash256") && encodes(mu, "Payload.EncodeBinary") {
 		r.ok("Payload.Hash = Hash256(MarshalUnsigned()), MarshalUnsigned = gob(EncodeBinary)")
 	} else {
 		r.fail("Payload.Hash/input", c.Prog.Pos(ph.Decl), "Payload.Hash does not hash the full unsigned encoding")
@@ -586,7 +748,7 @@ func ruleHashInput(c *RC) *RuleResult {
 				bad = "GetHashData reads the signature/data field"
 			}
 		}
-		if !calls(ghd, "EncodeBinary") {
+		if !encodes(ghd, "EncodeBinary") {
 			bad = "GetHashData does not encode the block header"
 		}
 		for _, m := range []string{"Hash", "Sign", "Verify", "SetData"} {
@@ -751,43 +913,76 @@ func ruleSig(c *RC) *RuleResult {
 		r.unresolved("merkle.buildTree")
 		return r
 	}
-	good := false
+	// read through locals and single-caller helpers: the one Hash256 input is append(P.Left.Hash[:], P.Right.Hash[:]) for
+	// a parent P = parents[i]; P.Left = &leaves[2i]; P.Right = &leaves[2i+1] (or P.Left for the odd last one); P.Hash is
+	// assigned
+	nf := c.collectNorm(bt, "Hash256")
 	var order []string
-	left, right := "", ""
-	ast.Inspect(bt.Decl.Body, func(n ast.Node) bool {
-		switch x := n.(type) {
-		case *ast.CallExpr:
-			if id, ok := x.Fun.(*ast.Ident); ok && id.Name == "append" && len(x.Args) == 2 {
-				order = append(order, exprText(x.Args[0])+" ++ "+exprText(x.Args[1]))
-			}
-		case *ast.AssignStmt:
-			if len(x.Lhs) == 1 && len(x.Rhs) == 1 {
-				l := exprText(x.Lhs[0])
-				if strings.HasSuffix(l, ".Left") && left == "" {
-					left = exprText(x.Rhs[0])
+	good := false
+	why := ""
+	ins := nf.calls["Hash256"]
+	reIn := regexp.MustCompile(`^append\((.+)\.Left\.Hash\[:\],(.+)\.Right\.Hash\[:\]\)$`)
+	switch {
+	case len(ins) != 1:
+		why = fmt.Sprintf("%d hash computations in the tree builder", len(ins))
+	default:
+		order = append(order, "Hash256("+ins[0]+")")
+		m := reIn.FindStringSubmatch(ins[0])
+		if m == nil || m[1] != m[2] {
+			why = "the hash input is not the parent's left hash followed by its right hash"
+			break
+		}
+		P := m[1]
+		reP := regexp.MustCompile(`^(.+)\[([A-Za-z_][A-Za-z_0-9]*)\]$`)
+		pm := reP.FindStringSubmatch(P)
+		if pm == nil {
+			why = "the parent is not an element indexed by the loop variable"
+			break
+		}
+		iv := pm[2]
+		leftOK, rightPair, rightOther, hashSet := false, false, "", false
+		src := ""
+		for _, as := range nf.assigns {
+			switch as[0] {
+			case P + ".Left":
+				order = append(order, "Left="+as[1])
+				if mm := regexp.MustCompile(`^&(.+)\[2\*` + iv + `\]$`).FindStringSubmatch(as[1]); mm != nil {
+					leftOK, src = true, mm[1]
 				}
-				if strings.HasSuffix(l, ".Right") {
-					right = exprText(x.Rhs[0])
-				}
+			case P + ".Hash":
+				hashSet = true
 			}
 		}
-		return true
-	})
-	hashes := false
-	for _, s := range c.A.FnSites[bt] {
-		if s.Kind == "call" && strings.Contains(s.Callee, "Hash256") {
-			hashes = true
+		for _, as := range nf.assigns {
+			if as[0] != P+".Right" {
+				continue
+			}
+			order = append(order, "Right="+as[1])
+			switch as[1] {
+			case "&" + src + "[2*" + iv + "+1]":
+				rightPair = true
+			case P + ".Left":
+			default:
+				rightOther = as[1]
+			}
+		}
+		switch {
+		case !leftOK:
+			why = "the left child is not leaf 2i"
+		case !rightPair:
+			why = "the right child is never leaf 2i+1"
+		case rightOther != "":
+			why = "the right child may be " + rightOther
+		case !hashSet:
+			why = "the computed hash is not stored in the parent"
+		default:
+			good = true
 		}
 	}
-	if len(order) == 1 && strings.Contains(order[0], ".Left.Hash[:] ++ ") && strings.HasSuffix(order[0], ".Right.Hash[:]") && hashes &&
-		strings.Contains(left, "leaves[i*2]") && strings.Contains(right, "leaves[i*2+1]") {
-		good = true
-	}
-	order = append(order, "Left="+left, "Right="+right)
 	if good {
 		r.ok("parent = Hash256(left ‖ right): " + strings.Join(order, "; "))
 	} else {
-		r.fail("merkle.buildTree/order", c.Prog.Pos(bt.Decl), "parent hash input is not left‖right: "+strings.Join(order, "; "))
+		r.fail("merkle.buildTree/order", c.Prog.Pos(bt.Decl), "parent hash input is not left‖right over leaves 2i, 2i+1: "+why+" ["+strings.Join(order, "; ")+"]")
 	}
 	return r
 }
